@@ -2,6 +2,7 @@ package meta
 
 import (
 	"regexp/syntax"
+	"strings"
 
 	"github.com/coregx/coregex/literal"
 	"github.com/coregx/coregex/nfa"
@@ -979,6 +980,120 @@ func isSafeForReverseInner(re *syntax.Regexp) bool {
 	default:
 		return false
 	}
+}
+
+// isDotStarLiteralSet reports whether re is exactly `.*(?:lit1|lit2|...)`, possibly
+// with capture groups: a greedy .* that excludes '\n' followed by an expression
+// whose matches are exactly the given suffix literals (`.*\.(txt|log|md)`), where
+// no literal contains '\n' and none is a prefix of another one.
+//
+// For this shape alone a match is known from the positions of the literals: it
+// starts at the beginning of the line and ends with the last literal on the line
+// (at most one literal occurs at a position, so the order of the alternatives does
+// not matter). `.*?\.(txt|log)` (lazy), `(?s).*\.(txt|log)` (crosses lines),
+// `.*[0-9]\.(txt|log)` (more than literals after the wildcard) and `.*\.(c|cpp)`
+// (the first alternative that matches wins) need the automata.
+func isDotStarLiteralSet(re *syntax.Regexp, suffixLiterals *literal.Seq) bool {
+	if !hasDotStarPrefix(re) {
+		return false
+	}
+	for re.Op == syntax.OpCapture && len(re.Sub) == 1 {
+		re = re.Sub[0]
+	}
+	if re.Op != syntax.OpConcat || len(re.Sub) < 2 {
+		return false
+	}
+	wild := re.Sub[0]
+	for wild.Op == syntax.OpCapture && len(wild.Sub) == 1 {
+		wild = wild.Sub[0]
+	}
+	if wild.Op != syntax.OpStar || wild.Flags&syntax.NonGreedy != 0 ||
+		len(wild.Sub) != 1 || wild.Sub[0].Op != syntax.OpAnyCharNotNL {
+		return false
+	}
+
+	// The strings matched by what follows the wildcard
+	matched, ok := literalStrings(&syntax.Regexp{Op: syntax.OpConcat, Sub: re.Sub[1:]}, 64)
+	if !ok {
+		return false
+	}
+
+	// ... are the suffix literals, and the literals are pairwise prefix-free
+	if suffixLiterals == nil || suffixLiterals.Len() != len(matched) {
+		return false
+	}
+	for i := 0; i < suffixLiterals.Len(); i++ {
+		lit := string(suffixLiterals.Get(i).Bytes)
+		if lit == "" || strings.Contains(lit, "\n") {
+			return false
+		}
+		isMatched := false
+		for j, m := range matched {
+			isMatched = isMatched || m == lit
+			if other := string(suffixLiterals.Get(j).Bytes); j != i && strings.HasPrefix(other, lit) {
+				return false
+			}
+		}
+		if !isMatched {
+			return false
+		}
+	}
+	return true
+}
+
+// literalStrings returns the strings matched by re if re is built from
+// case-sensitive literals, character classes, alternations, concatenations and
+// capture groups only and matches at most limit strings.
+func literalStrings(re *syntax.Regexp, limit int) ([]string, bool) {
+	switch re.Op {
+	case syntax.OpEmptyMatch:
+		return []string{""}, true
+	case syntax.OpLiteral:
+		if re.Flags&syntax.FoldCase != 0 {
+			return nil, false
+		}
+		return []string{string(re.Rune)}, true
+	case syntax.OpCharClass:
+		var out []string
+		for i := 0; i+1 < len(re.Rune); i += 2 {
+			if int(re.Rune[i+1]-re.Rune[i]) >= limit-len(out) {
+				return nil, false
+			}
+			for r := re.Rune[i]; r <= re.Rune[i+1]; r++ {
+				out = append(out, string(r))
+			}
+		}
+		return out, len(out) > 0
+	case syntax.OpCapture:
+		return literalStrings(re.Sub[0], limit)
+	case syntax.OpAlternate:
+		var out []string
+		for _, sub := range re.Sub {
+			alt, ok := literalStrings(sub, limit)
+			if !ok || len(out)+len(alt) > limit {
+				return nil, false
+			}
+			out = append(out, alt...)
+		}
+		return out, true
+	case syntax.OpConcat:
+		out := []string{""}
+		for _, sub := range re.Sub {
+			tails, ok := literalStrings(sub, limit)
+			if !ok || len(out)*len(tails) > limit {
+				return nil, false
+			}
+			next := make([]string, 0, len(out)*len(tails))
+			for _, head := range out {
+				for _, tail := range tails {
+					next = append(next, head+tail)
+				}
+			}
+			out = next
+		}
+		return out, true
+	}
+	return nil, false
 }
 
 // shouldUseReverseSuffixSet checks if multiple suffix literals are available for Teddy prefilter.
